@@ -21,7 +21,7 @@
     `atmOK s t`            NOT (target atmosphere type 0 and source type 1 or 2).
 -/
 import PyTough.Model.Mapping
-import PyTough.Proofs.MappingGen
+import PyTough.Proofs.MappingHeap
 
 namespace Props.C19
 open Py Model.Mapping
@@ -241,6 +241,31 @@ theorem incon_transfer_total_partial (q : List (Rat × Rat) → Rat × Rat → N
     ∃ res tnames, transferFrom q src s t [] [] = .ok res ∧ t.blockNameList = .ok tnames ∧
       ∀ d ∈ tnames, ∃ v, dget res d = .ok v :=
   Proofs.Mapping.incon_total_partial q hq src s t hs ht ha hne hcover
+
+/-! ### ... without altering the source
+
+  For this clause the same method is modelled on an object heap (`transferFromH`): a
+  `t2blockincon` is an object with a `block` attribute, `copy()` allocates a new object,
+  `self[key] = value` sets `value.block = key` (the only mutation the method performs) and files
+  the object under `key`.  `h` is the heap before the call (it contains the source's objects),
+  `src` the source `t2incon` (names → object ids). -/
+
+/-- Whenever the call returns: every object that existed before the call — in particular every
+    `t2blockincon` of the source — is unchanged, and every object held by the receiving
+    `t2incon` is a new one (nothing is shared with the source at the level of these objects;
+    `copy()` being shallow, the variable lists are shared — not modelled). -/
+theorem incon_transfer_source_unaltered (q : List (Rat × Rat) → Rat × Rat → Nat) (h : Heap) (src : InconH)
+    (s t : Geo) (mp cmp : Dict Str) (h' : Heap) (self' : InconH)
+    (hr : transferFromH q h src s t mp cmp = .ok (h', self')) :
+    h.length ≤ h'.length ∧ (∀ i, i < h.length → h'[i]? = h[i]?) ∧ ∀ p ∈ self', h.length ≤ p.2 :=
+  Proofs.Mapping.transferFromH_frame q h src s t mp cmp h' self' hr
+
+/-- the heap and the `t2incon` for `exInc` -/
+def exHeap (atm : Nat) : Heap := (exInc atm).map (fun p => ⟨p.1, p.2⟩)
+def exSrcInc (atm : Nat) : InconH := (enumFrom 0 (exInc atm)).map (fun x => (x.2.1, x.1))
+
+example : (transferFromH nearestFirst (exHeap 1) (exSrcInc 1) (exSrc 1) (exTgt 1) [] []).toBool = true := by
+  decide +kernel
 
 /-! ### transferring a model (`t2data`): rock types -/
 
